@@ -138,7 +138,14 @@ class TraceModel(core.Model):
     def __init__(self, cfg, seed, hooks=None):
         if isinstance(cfg, str):
             cfg = json.loads(cfg)
-        super().__init__(seed=seed)
+        if cfg.get('assign_seed'):
+            # the other public way to give a model its generator: build it unseeded, then assign the documented attribute `model.random`
+            # (the default environment exists already) - from then on this IS the model's own seeded generator
+            import random as _random
+            super().__init__()
+            self.random = _random.Random(seed)
+        else:
+            super().__init__(seed=seed)
         self.cfg, self.cfg_key = cfg, json.dumps(cfg, sort_keys=True)
         self.trace, self.hooks, self.counter, self.seed_used, self.n_calls = [], hooks, 0, seed, 0
         self.position_type = None
